@@ -24,7 +24,7 @@ def transport_id(kind, tag="t"):
     fmt = 0
     if kind in ("fcp", "1394", "rdma", "sas", "sop"):
         proto, key, first, n = {"fcp": (0, "n_port_name", 8, 8), "1394": (3, "eui64_name", 8, 8), "rdma": (4, "initiator_port_identifier", 8, 16),
-                                "sas": (6, "sas_address", 4, 8), "sop": (0x0A, "routing_id", 4, 8)}[kind]
+                                "sas": (6, "sas_address", 4, 8), "sop": (0x0A, "routing_id", 2, 2)}[kind]      # SPC-4 7.6.4.8: ROUTING ID is bytes 2..3
         blob = sym_blob((tag, key), n)
         d = {"protocol_id": proto, key: blob}
         img = Image(24)
@@ -152,12 +152,14 @@ X5 = M + "scsi_cdb_extended_copy_spc5:ExtendedCopy"
 XCOPY_CASES = []
 
 
-def cscd(x, tag, devtype, params_key):
+def cscd(x, tag, devtype, params_key, give_len=None):
     """identification-descriptor (E4h) CSCD/target descriptor with an NAA-5 designator: (dict, 32-byte image)"""
     pre = "_target" if x is X4 else "_cscd"
     naa = {"naa": 5, "ieee_company_id": S((tag, "oui"), 24), "vendor_specific_identifier": S((tag, "vsi"), 36)}
     d = {"descriptor_type_code": 0xE4, "peripheral_device_type": devtype, "relative_initiator_port_identifier": S((tag, "ripi"), 16),
          params_key: {"code_set": S((tag, "cs"), 4), "association": S((tag, "as"), 2), "designator_type": 3, "designator": naa}}
+    if give_len is not None:
+        d[params_key]["designator_length"] = give_len     # a documented key; the library must compute the length itself
     img = Image(32)
     img.put((0, 7, 0), 0xE4)
     img.put((1, 7, 6), 0)
@@ -205,10 +207,10 @@ def segment(x, tag, code):
     return d, img
 
 
-def xcopy(x, devtypes, segcodes, ninline):
+def xcopy(x, devtypes, segcodes, ninline, give_len=None):
     def b():
         params_key = "target_descriptor_parameters" if x is X4 else "cscd_descriptor_parameters"
-        cs = [cscd(x, "c%d" % i, dt, params_key) for i, dt in enumerate(devtypes)]
+        cs = [cscd(x, "c%d" % i, dt, params_key, give_len) for i, dt in enumerate(devtypes)]
         sg = [segment(x, "s%d" % i, c) for i, c in enumerate(segcodes)]
         inline = sym_blob("inline", ninline)
         clen, slen = sum(len(c[1]) for c in cs), sum(len(s[1]) for s in sg)
@@ -256,5 +258,29 @@ for _x, _nm in ((X4, "LID1"), (X5, "LID4")):
     XCOPY_CASES.append({"name": "EXTENDED COPY %s block->block" % _nm, "cls": _x, "build": xcopy(_x, [0x00, 0x00], [0x02], 0)})
     XCOPY_CASES.append({"name": "EXTENDED COPY %s block->stream" % _nm, "cls": _x, "build": xcopy(_x, [0x00, 0x01], [0x00], 5)})
     XCOPY_CASES.append({"name": "EXTENDED COPY %s stream->block" % _nm, "cls": _x, "build": xcopy(_x, [0x01, 0x00], [0x01], 0)})
+    for _gl in (8, 0, 16):
+        XCOPY_CASES.append({"name": "EXTENDED COPY %s with designator_length=%d supplied" % (_nm, _gl), "cls": _x,
+                            "build": xcopy(_x, [0x00, 0x00], [0x02], 0, give_len=_gl)})
     XCOPY_CASES.append({"name": "EXTENDED COPY %s three CSCDs, three segments, inline data" % _nm, "cls": _x,
                         "build": xcopy(_x, [0x00, 0x01, 0x03], [0x02, 0x00, 0x02], 7)})
+
+
+# ---- deeper shapes (thorough tier) -------------------------------------------
+MORE_PR_CASES = []
+_pr_saved = PR_CASES
+PR_CASES = MORE_PR_CASES
+for _ln in range(1, 49):
+    _nm = "i" * _ln
+    pr_case("PR OUT REGISTER AND MOVE, iSCSI name of %d characters" % _ln, 7, _ram(("iscsi", _nm)))
+for _ln in (1, 2, 3, 4, 9, 16, 31):
+    pr_case("PR OUT REGISTER AND MOVE, iSCSI name of %d characters with session id" % _ln, 7, _ram(("iscsi", "n" * _ln, "0123456789ab")))
+pr_case("PR OUT REGISTER with SPEC_I_PT and every TransportID kind", 0, _register_spec(list(TID_KINDS)))
+pr_case("PR OUT REGISTER with SPEC_I_PT and six iSCSI TransportIDs", 0,
+        _register_spec([("iscsi", "q" * k) for k in (3, 4, 5, 6, 7, 8)]))
+PR_CASES = _pr_saved
+MORE_XCOPY_CASES = []
+for _x, _nm in ((X4, "LID1"), (X5, "LID4")):
+    MORE_XCOPY_CASES.append({"name": "EXTENDED COPY %s four CSCDs, six segments" % _nm, "cls": _x,
+                             "build": xcopy(_x, [0x00, 0x01, 0x03, 0x00], [0x02, 0x00, 0x01, 0x02, 0x01, 0x00], 0)})
+    MORE_XCOPY_CASES.append({"name": "EXTENDED COPY %s inline data only" % _nm, "cls": _x, "build": xcopy(_x, [], [], 64)})
+    MORE_XCOPY_CASES.append({"name": "EXTENDED COPY %s eight block->block segments" % _nm, "cls": _x, "build": xcopy(_x, [0x00, 0x00], [0x02] * 8, 3)})
